@@ -565,6 +565,18 @@ End WithRec.
 Definition struct_fields_nc (s : struct) : list field := non_const (s_fields s).
 Definition no_dec (_ : string) (_ : bytes) : result value := unsupported.
 
+(* A._deserialize(buffer, instance): returns locals, window start, window end (R: codecs of the member types) *)
+Definition dec_header_with (R : rec_ops) (b : struct) (allfs : list field) (buf : bytes) : result (list (string * value) * Z * Z) :=
+  let bfs := struct_fields_nc b in
+  let has_size := existsb (fun f => String.eqb (f_name f) "size") bfs in
+  bind (deserialize_loop R b allfs bfs [] [] [] [] buf) (fun r =>
+  let size_ := if has_size then match eget (fst r) "size" with Some (VInt z) => z | _ => 0 end else Z.of_nat (length buf) in
+  Ok (fst r, size_ - Z.of_nat (length (snd r)), size_)).
+
+(* members a decoded instance carries, in schema order *)
+Definition collect (s : struct) (e : list (string * value)) : list (string * value) :=
+  map (fun f => (f_name f, match find (fun p => String.eqb (fst p) (f_name f)) e with Some p => snd p | None => VNull end)) (settable_fields s).
+
 Fixpoint enc (fuel : nat) (t : string) (v : value) {struct fuel} : result bytes :=
   match fuel with
   | O => Crash "OutOfFuel"
@@ -651,9 +663,9 @@ with enc_struct (fuel : nat) (s : struct) (v : value) {struct fuel} : result byt
     bind (size_struct k s v) (fun total =>
     match base_struct s with
     | Some b =>
-      bind (serialize_fields_go {| enc_t := enc k; size_t := size k; dec_t := no_dec; decf_t := no_dec; key_t := key k |} b allfs total v true (struct_fields_nc b)) (fun hb =>
-      bind (serialize_fields_go {| enc_t := enc k; size_t := size k; dec_t := no_dec; decf_t := no_dec; key_t := key k |} s allfs total v true (own_fields s)) (fun ob => Ok (hb ++ ob)))
-    | None => serialize_fields_go {| enc_t := enc k; size_t := size k; dec_t := no_dec; decf_t := no_dec; key_t := key k |} s allfs total v true (own_fields s)
+      bind (serialize_fields_go {| enc_t := enc k; size_t := size k; dec_t := dec k; decf_t := decf k; key_t := key k |} b allfs total v true (struct_fields_nc b)) (fun hb =>
+      bind (serialize_fields_go {| enc_t := enc k; size_t := size k; dec_t := dec k; decf_t := decf k; key_t := key k |} s allfs total v true (own_fields s)) (fun ob => Ok (hb ++ ob)))
+    | None => serialize_fields_go {| enc_t := enc k; size_t := size k; dec_t := dec k; decf_t := decf k; key_t := key k |} s allfs total v true (own_fields s)
     end)
   end
 with size_struct (fuel : nat) (s : struct) (v : value) {struct fuel} : result Z :=
@@ -663,17 +675,12 @@ with size_struct (fuel : nat) (s : struct) (v : value) {struct fuel} : result Z 
     let allfs := struct_fields_nc s in
     match base_struct s with
     | Some b =>
-      bind (size_fields {| enc_t := enc k; size_t := size k; dec_t := no_dec; decf_t := no_dec; key_t := key k |} allfs v (struct_fields_nc b)) (fun hs =>
-      bind (size_fields {| enc_t := enc k; size_t := size k; dec_t := no_dec; decf_t := no_dec; key_t := key k |} allfs v (own_fields s)) (fun os => Ok (hs + os)))
-    | None => size_fields {| enc_t := enc k; size_t := size k; dec_t := no_dec; decf_t := no_dec; key_t := key k |} allfs v (own_fields s)
+      bind (size_fields {| enc_t := enc k; size_t := size k; dec_t := dec k; decf_t := decf k; key_t := key k |} allfs v (struct_fields_nc b)) (fun hs =>
+      bind (size_fields {| enc_t := enc k; size_t := size k; dec_t := dec k; decf_t := decf k; key_t := key k |} allfs v (own_fields s)) (fun os => Ok (hs + os)))
+    | None => size_fields {| enc_t := enc k; size_t := size k; dec_t := dec k; decf_t := decf k; key_t := key k |} allfs v (own_fields s)
     end
-  end.
-
-(* members a decoded instance carries, in schema order *)
-Definition collect (s : struct) (e : list (string * value)) : list (string * value) :=
-  map (fun f => (f_name f, match find (fun p => String.eqb (fst p) (f_name f)) e with Some p => snd p | None => VNull end)) (settable_fields s).
-
-Fixpoint dec (fuel : nat) (t : string) (buf : bytes) {struct fuel} : result value :=
+  end
+with dec (fuel : nat) (t : string) (buf : bytes) {struct fuel} : result value :=
   match fuel with
   | O => Crash "OutOfFuel"
   | S k =>
@@ -685,14 +692,22 @@ Fixpoint dec (fuel : nat) (t : string) (buf : bytes) {struct fuel} : result valu
     | Some (DEnum _ b vs at_ _) =>
       let x := py_from_bytes (Z.to_nat (it_size b)) (negb (it_unsigned b)) buf in
       if enum_valid vs (is_bitwise at_) x then Ok (VInt x) else Reject
-    | Some (DStruct s) =>
+    | Some (DStruct s) => dec_struct k s buf
+    | None => Crash "NameError"
+    end
+  end
+(* S.deserialize of a struct class (one more unit of fuel, like enc_struct / size_struct, so that members are at the same level) *)
+with dec_struct (fuel : nat) (s : struct) (buf : bytes) {struct fuel} : result value :=
+  match fuel with
+  | O => Crash "OutOfFuel"
+  | S k =>
       match s_disp s with
       | SdAbstract => Crash "AttributeError"     (* abstract classes have no public deserialize *)
       | _ =>
         let allfs := struct_fields_nc s in
         match base_struct s with
         | Some b =>
-          bind (dec_header k b allfs buf) (fun h =>
+          bind (dec_header_with {| enc_t := enc k; size_t := size k; dec_t := dec k; decf_t := decf k; key_t := key k |} b allfs buf) (fun h =>
           let '(e0, ws, we) := h in
           let wbuf := zskipn ws (zfirstn we buf) in
           bind (deserialize_loop {| enc_t := enc k; size_t := size k; dec_t := dec k; decf_t := decf k; key_t := key k |} s allfs (own_fields s) [] [] [] e0 wbuf) (fun r =>
@@ -702,28 +717,16 @@ Fixpoint dec (fuel : nat) (t : string) (buf : bytes) {struct fuel} : result valu
           Ok (VStruct (s_name s) (collect s (fst r))))
         end
       end
-    | None => Crash "NameError"
-    end
-  end
-(* A._deserialize(buffer, instance): returns locals, window start, window end *)
-with dec_header (fuel : nat) (b : struct) (allfs : list field) (buf : bytes) {struct fuel} : result (list (string * value) * Z * Z) :=
-  match fuel with
-  | O => Crash "OutOfFuel"
-  | S k =>
-    let bfs := struct_fields_nc b in
-    let has_size := existsb (fun f => String.eqb (f_name f) "size") bfs in
-    bind (deserialize_loop {| enc_t := enc k; size_t := size k; dec_t := dec k; decf_t := decf k; key_t := key k |} b allfs bfs [] [] [] [] buf) (fun r =>
-    let size_ := if has_size then match eget (fst r) "size" with Some (VInt z) => z | _ => 0 end else Z.of_nat (length buf) in
-    Ok (fst r, size_ - Z.of_nat (length (snd r)), size_))
   end
 (* TFactory.deserialize *)
 with decf (fuel : nat) (t : string) (buf : bytes) {struct fuel} : result value :=
   match fuel with
   | O => Crash "OutOfFuel"
-  | S k =>
+  | S O => Crash "OutOfFuel"
+  | S (S k1 as k) =>      (* the parent header and the chosen child are both read with member codecs at level k1 (as serialize does) *)
     match lookup_struct t with
     | Some a =>
-      bind (dec_header k a (struct_fields_nc a) buf) (fun h =>
+      bind (dec_header_with {| enc_t := enc k1; size_t := size k1; dec_t := dec k1; decf_t := decf k1; key_t := key k1 |} a (struct_fields_nc a) buf) (fun h =>
       let '(e0, _, _) := h in
       match find_attr (s_attrs a) "discriminator" with
       | Some da =>
@@ -756,7 +759,7 @@ with decf (fuel : nat) (t : string) (buf : bytes) {struct fuel} : result value :
         let fix keys_eq (x y : list (option value)) : bool :=
           match x, y with [], [] => true | p :: x', q :: y' => veq p q && keys_eq x' y' | _, _ => false end in
         match find (fun d => match d with DStruct c => keys_eq (key_of c) actual | _ => false end) (rev children) with
-        | Some (DStruct c) => dec k (s_name c) buf
+        | Some (DStruct c) => dec_struct k c buf
         | _ => Crash "KeyError"
         end
       | None => Crash "KeyError"
